@@ -157,6 +157,57 @@ def r14_concat(toks, log):
         out.append(t); i += 1
     return out
 
+def r21_raw_parts(toks, log):
+    """R21: `unsafe { slice::from_raw_parts(E.as_ptr() as *const _, N) }` -> `verif_from_raw_parts(E, N)`: the reinterpretation of a
+    byte slice as a slice of integers becomes a call of a shim whose precondition is the documented in-bounds safety condition
+    (alignment is NOT modelled) and whose result elements are the native-endian values of the bytes."""
+    out = []
+    i = 0
+    n = len(toks)
+    while i < n:
+        t = toks[i]
+        if t.text == "unsafe" and i + 1 < n and toks[i + 1].text == "{":
+            c = match_close(toks, i + 1)
+            inner = toks[i + 2:c]
+            txt = [x.text for x in inner]
+            if len(txt) > 6 and txt[:4] == ["slice", "::", "from_raw_parts", "("] and inner[-1].text == ")":
+                args = inner[4:-1]
+                # E . as_ptr ( ) as * const _ , N
+                try:
+                    k = next(j for j in range(len(args)) if [x.text for x in args[j:j + 8]] == [".", "as_ptr", "(", ")", "as", "*", "const", "_"])
+                except StopIteration:
+                    k = None
+                if k is not None and args[k + 8].text == ",":
+                    e = args[:k]
+                    cnt = args[k + 9:]
+                    log.add("R21", t, render(toks[i:c + 1]))
+                    out += gen("verif_from_raw_parts(", t, t.ws) + e + gen(",", t, "") + cnt + gen(")", t, "")
+                    i = c + 1
+                    continue
+        out.append(t); i += 1
+    return out
+
+def r22_xor_zip(toks, log):
+    """R22: the statement `A.iter_mut().zip(B).for_each(|(l, r)| *l ^= r);` (iterator adapters, outside Verus) ->
+    `verif_xor_in_place(&mut A, B);` (assumed contract: A[i] ^= B[i] for i < min(len))."""
+    out = []
+    i = 0
+    n = len(toks)
+    pat = [".", "iter_mut", "(", ")", ".", "zip", "("]
+    tail = [".", "for_each", "(", "|", "(", "l", ",", "r", ")", "|", "*", "l", "^=", "r", ")"]
+    while i < n:
+        t = toks[i]
+        if t.kind == "id" and [x.text for x in toks[i + 1:i + 1 + len(pat)]] == pat:
+            zo = i + len(pat)
+            zc = match_close(toks, zo)
+            if [x.text for x in toks[zc + 1:zc + 1 + len(tail)]] == tail:
+                log.add("R22", t, render(toks[i:zc + 1 + len(tail)]))
+                out += gen("verif_xor_in_place(&mut " + t.text + ",", t, t.ws) + toks[zo + 1:zc] + gen(")", t, "")
+                i = zc + 1 + len(tail)
+                continue
+        out.append(t); i += 1
+    return out
+
 def r6_derives_and_attrs(toks, log, keep_derives=None):
     out = []
     i = 0
@@ -598,6 +649,8 @@ def apply_item_rewrites(toks, log, opts=None):
     toks = r3_errors(toks, log)
     toks = r3b_error_fns(toks, log)
     toks = r14_concat(toks, log)
+    toks = r21_raw_parts(toks, log)
+    toks = r22_xor_zip(toks, log)
     toks = r4_dyn(toks, log)
     toks = r16_pattern_params(toks, log)
     toks = r16b_closure_wildcards(toks, log)
